@@ -1305,6 +1305,26 @@ impl Server {
                     Some(RequestType::HardStop(_)) => {
                         let req_id = request.id.clone();
                         self.notify(request);
+                        // Answers to commands read earlier in this batch are
+                        // still queued; `run()` returns right after this, so
+                        // they must be written out before the final OK or the
+                        // main process never hears about them. The proxies'
+                        // own verdict on the HardStop is superseded by the OK
+                        // written below.
+                        QUEUE.with(|queue| {
+                            for response in queue
+                                .borrow_mut()
+                                .drain(..)
+                                .filter(|response| response.id != req_id)
+                            {
+                                if let Err(e) = self.channel.write_message(&response) {
+                                    error!(
+                                        "Could not write message {} on the channel: {}",
+                                        response, e
+                                    );
+                                }
+                            }
+                        });
                         if let Err(e) = self.channel.write_message(&WorkerResponse::ok(req_id)) {
                             error!("Could not send ok response to the main process: {}", e);
                         }
